@@ -42,13 +42,13 @@ VARIABLES
 
 vars == <<fsLo, fsHi, disposed, active, recent, nbuilds, build, call, left, watching, wstopped>>
 
-Phases == {"new", "started", "scanned", "compiled", "written", "onend", "ended", "published", "wgdone"}
-Running == {"started", "scanned", "compiled", "written", "onend", "ended"}
+Phases == {"new", "started", "scanned", "sampled", "compiled", "written", "onend", "ended", "published", "wgdone"}
+Running == {"started", "scanned", "sampled", "compiled", "written", "onend", "ended"}
 Outcomes == {"none", "ok", "errors", "cancelled"}
 
 NoBuild == [phase |-> "new", cancel |-> FALSE, readLo |-> 0, readHi |-> 0, scanErr |-> FALSE,
             outcome |-> "none", onEndDone |-> 0, onEndFailed |-> FALSE, starter |-> Watcher, watch |-> FALSE,
-            startBegun |-> 0, startEnded |-> 0, loaded |-> {}]
+            startBegun |-> 0, startEnded |-> 0, loaded |-> {}, sawCancel |-> FALSE]
 
 IdleCall == [op |-> "none", pc |-> "idle", saw |-> None, enterLo |-> 0, ret |-> None, branch |-> "none"]
 
@@ -160,14 +160,20 @@ ScanDone(b, err) ==
   /\ build' = [build EXCEPT ![b].phase = "scanned", ![b].readHi = fsHi, ![b].scanErr = err]
   /\ UNCHANGED <<fsLo, fsHi, disposed, active, recent, nbuilds, call, left, watching, wstopped>>
 
-\* bundle.Compile returned (linkErr: it logged errors) and the cancel flag was
-\* sampled.  After a scan with errors nothing is compiled.
-CompileDone(b, linkErr) ==
+\* bundle.Compile returned and the (lock-free) cancel flag is sampled ...
+CompileSample(b) ==
   /\ build[b].phase = "scanned"
+  /\ build' = [build EXCEPT ![b].phase = "sampled", ![b].sawCancel = build[b].cancel]
+  /\ UNCHANGED <<fsLo, fsHi, disposed, active, recent, nbuilds, call, left, watching, wstopped>>
+
+\* ... and the outcome is decided from the sample (linkErr: the linker logged
+\* errors).  After a scan with errors nothing is compiled.
+CompileDone(b, linkErr) ==
+  /\ build[b].phase = "sampled"
   /\ build[b].scanErr => ~linkErr
   /\ build' = [build EXCEPT ![b].phase = "compiled",
                             ![b].outcome = IF build[b].scanErr THEN "errors"
-                                           ELSE IF build[b].cancel THEN "cancelled"
+                                           ELSE IF build[b].sawCancel THEN "cancelled"
                                            ELSE IF linkErr THEN "errors" ELSE "ok"]
   /\ UNCHANGED <<fsLo, fsHi, disposed, active, recent, nbuilds, call, left, watching, wstopped>>
 
@@ -311,7 +317,7 @@ Next ==
   \/ \E c \in AllCallers : RebuildEnterDisposed(c) \/ RebuildEnterJoin(c) \/ RebuildEnterStart(c) \/ RebuildReturn(c)
   \/ \E b \in Builds : \/ \E err \in BOOLEAN : ScanDone(b, err)
                        \/ CbStartBegin(b) \/ CbStartEnd(b) \/ (\E m \in Modules : CbLoad(b, m))
-                       \/ (\E le \in BOOLEAN : CompileDone(b, le)) \/ WriteDone(b)
+                       \/ CompileSample(b) \/ (\E le \in BOOLEAN : CompileDone(b, le)) \/ WriteDone(b)
                        \/ \E i \in 1..NOnEnd, f \in BOOLEAN : OnEnd(b, i, f)
                        \/ BuildEnd(b) \/ Publish(b) \/ WgDone(b)
   \/ RecentExpire \/ WatcherExit
@@ -329,7 +335,7 @@ CallerStep(c) ==
 BuildStep(b) ==
   \/ \E err \in BOOLEAN : ScanDone(b, err)
   \/ CbStartBegin(b) \/ CbStartEnd(b)
-  \/ (\E le \in BOOLEAN : CompileDone(b, le)) \/ WriteDone(b)
+  \/ CompileSample(b) \/ (\E le \in BOOLEAN : CompileDone(b, le)) \/ WriteDone(b)
   \/ \E i \in 1..NOnEnd, f \in BOOLEAN : OnEnd(b, i, f)
   \/ BuildEnd(b) \/ Publish(b) \/ WgDone(b)
 
@@ -401,12 +407,12 @@ NoWorkAfterDispose ==
 
 \* A cancelled build is one whose cancel flag was set, and it reports errors
 CancelledHasFlag ==
-  \A b \in Builds : build[b].outcome = "cancelled" => build[b].cancel
+  \A b \in Builds : build[b].outcome = "cancelled" => (build[b].cancel /\ build[b].sawCancel)
 
 \* on-end callbacks: after the write phase, in order, each at most once, all unless one failed
 OnEndDiscipline ==
   \A b \in Builds :
-    /\ build[b].onEndDone > 0 => build[b].phase \notin {"new", "started", "scanned", "compiled"}
+    /\ build[b].onEndDone > 0 => build[b].phase \notin {"new", "started", "scanned", "sampled", "compiled"}
     /\ build[b].phase \in {"ended", "published", "wgdone"} =>
          (build[b].onEndFailed \/ build[b].onEndDone = NOnEnd)
 
